@@ -63,6 +63,10 @@ PROPS = {
              {"checks": 6000, "timeout": 300},
              {"checks": 25000, "shards": 16, "timeout": 1800},
              assumptions=COMMON_ASSUME),
+    "C07": P("TestC07", "exploration",
+             {"checks": 6000, "timeout": 300},
+             {"checks": 25000, "shards": 16, "timeout": 1800},
+             assumptions=COMMON_ASSUME),
 }
 
 TRUST = "Trusted base: Go runtime, net/http, compress/*, google.golang.org/protobuf, rapid, and the harness's own reference wire layer as the reading of the protocol specs. Generated search: absence of violations is evidence over the explored cases only."
@@ -131,6 +135,11 @@ META = {
     "C06": {
         "technique": 'property-based testing (rapid): generated route tables (template grammar) and request paths through the real ServeHTTP; independent three-valued reference matcher over the raw path as oracle, plus metamorphic re-registration in permuted order',
         "level_text": 'Generated exploration of overlapping route tables and of request paths with every reserved character in several valid escapings, structural mutations and RPC-style paths; dispatch target, captured values, 404/405+Allow, literal precedence and order independence are asserted against a reference matcher written from http.proto.',
+        "level_note": TRUST,
+    },
+    "C07": {
+        "technique": 'property-based testing (rapid): generated HTTP rules and messages; reference renderer and reference binder (body, then path variables, then query) written from google/api/http.proto as oracle, plus the pure round trip RPC->REST->RPC through two chained transcoders',
+        "level_text": 'Generated exploration of rule shapes (body/response_body selectors of every field category, variables of every scalar kind) and of messages, REST requests rendered in several valid styles, overrides, misfits and unknown parameters; binding, inverse rendering and the chained identity are asserted.',
         "level_note": TRUST,
     },
 }
